@@ -23,6 +23,7 @@ Why(ev) ==
      SameLists(ev.post, WireOf(ev.pre), All5) \o Lst("actor", ev.post.actor, ev.pre.actor) \o Lst("object", ev.post.object, ev.pre.object)
   ELSE IF ev.op = "deliver" THEN
      (IF ev.wbox = ev.w THEN <<>> ELSE <<"wrong-inbox">>) \o (IF ev.post.box = AppendSet(ev.pre.box, ev.m) THEN <<>> ELSE <<"box">>)
+  ELSE IF ev.op = "persist" THEN (IF ev.post.box = ev.pre.box /\ ev.post.count = Len(ev.pre.box) THEN <<>> ELSE <<"box-changed-in-storage">>)
   ELSE IF ev.op = "final" THEN
      LET s0 == ev.pre
          blocked == IF s0.class = "block" /\ ~IsNilE(s0.object) THEN {s0.object.w} ELSE {}
